@@ -111,7 +111,7 @@ def match_known(known, prop, inst):
     return None
 
 
-MAX_DISTANCE = 6  # statements, summed over the tree; see DESIGN.md section 12.6
+MAX_DISTANCE = int(os.environ.get('PBLINT_MAX_DISTANCE', '6'))  # statements, summed over the tree; see DESIGN.md section 12.5
 
 
 def _distance(ctx):
@@ -135,7 +135,7 @@ def summarise(ctx, known):
     downgraded = 0
     for r in ctx.rules:
         for i in r.instances:
-            if i.status == VIOLATED and match_known(known, ctx.prop, i) is None:
+            if i.status == VIOLATED and match_known(known, ctx.prop, i) is None and getattr(r, 'engine', '') != 'EFFECT':
                 f = (i.site or '').split(':')[0]
                 d = sum(per_file.values()) if per_file else 0
                 if d > MAX_DISTANCE:
